@@ -161,6 +161,7 @@ pub fn run(ctx: &mut Ctx) {
     ctx.meta("assumptions", "payload bytes outside the representative classes are only copied (data independence) || tiling after a Full item is only checked when its size is known and oversized children are not tolerated");
     ctx.expect_nonzero("full_items_seen");
     ctx.expect_nonzero("raw_items_seen");
+    ctx.expect_nonzero("buffer_boundary_docs");
     let cfgs = configs(ctx.quick());
     // Σ*
     let (shard, nshards) = (ctx.shard, ctx.nshards);
@@ -170,6 +171,7 @@ pub fn run(ctx: &mut Ctx) {
         }
         !ctx.should_stop()
     });
+    boundary_docs(ctx, &rs);
     // documents and their mutations
     let p = DocParams { max_nodes: doc_nodes, globals: vec![crate::spec::ID_TAG, crate::spec::ID_VOID], exclude: vec![], unknown_subsets: true, devs: 1, payload_classes: false, big_payloads: false, noncanonical: true, width_devs: true, extras: true, all_widths: false };
     // mutated size fields can declare gigabytes (legitimately allocated below the default 4 GB limit, see C17):
@@ -194,6 +196,34 @@ pub fn run(ctx: &mut Ctx) {
         }
         !ctx.should_stop()
     });
+}
+
+fn boundary_docs(ctx: &mut Ctx, rs: &RefSpec) {
+    let pads = if ctx.quick() { 24 } else { 64 };
+    let all = vec![ID_EBML, ID_ROOT, ID_M, ID_N, ID_K, ID_L, ID_P];
+    for (i, doc) in docs::buffer_boundary_docs(pads).into_iter().enumerate() {
+        if !ctx.mine(i as u64) {
+            continue;
+        }
+        let (bytes, _) = ref_encode(&doc);
+        for cfg in [Cfg::strict(), Cfg::strict().with_buffered(&[ID_M]), Cfg::strict().with_buffered(&all), Cfg::strict().with_cap(Some(16))] {
+            let d = || format!("buffer-boundary doc=[{}] ({} bytes) {}", docs::doc_short(rs, &doc), bytes.len(), cfg.short());
+            if !ctx.enter(&d) {
+                continue;
+            }
+            ctx.count("buffer_boundary_docs", 1);
+            ctx.nontrivial();
+            let obs = parse_slice::<V>(&bytes, &cfg);
+            ctx.transitions += obs.items.len() as u64 + 1;
+            if !obs.clean() {
+                ctx.violation("buffer-boundary/valid-document-does-not-parse", &d, &obs.term.short());
+            } else if let Err((k, det)) = mirror_check(&bytes, &obs, rs, &cfg) {
+                ctx.violation(&format!("buffer-boundary/{}", k), &d, &det);
+            }
+            ctx.validated += 1;
+            ctx.leave();
+        }
+    }
 }
 
 pub fn doc_is_plain(doc: &[crate::refmodel::Node]) -> bool {
